@@ -347,6 +347,29 @@ def enum_modules():
     for pname, ptpl in PARAM_CTX.items():
         for kname, p in PARAMS.items():
             add(f"param/{pname}/{kname}", PRELUDE + ptpl.replace("{P}", p))
+    # lookup chains: every nesting chain of functions / classes up to depth 4, `v` bound at every subset of
+    # the levels (the module always binds it), loaded in the innermost scope and in a closure below it
+    import itertools
+    for depth in (1, 2, 3, 4):
+        for chain in itertools.product("FC", repeat=depth):
+            for bound in itertools.product((0, 1), repeat=depth):
+                lines = ["v = -1"]
+                for lvl, (kind, b) in enumerate(zip(chain, bound)):
+                    pad = "    " * lvl
+                    if kind == "F":
+                        lines.append(f"{pad}def f{lvl}(p{lvl}=0):")
+                    else:
+                        lines.append(f"{pad}class C{lvl}:")
+                    if b and lvl < depth - 1:
+                        lines.append(f"{pad}    v = {lvl}")
+                pad = "    " * depth
+                if bound[-1]:
+                    lines.append(f"{pad}v = {depth}")
+                lines.append(f"{pad}w{depth} = v")
+                lines.append(f"{pad}def g9():")
+                lines.append(f"{pad}    return v")
+                lines.append(f"{pad}q9 = [v for i9 in ()]")
+                add("chain/" + "".join(chain) + "/" + "".join(map(str, bound)), "\n".join(lines) + "\nprint(v)\n")
     _ENUM = out
     return out
 
